@@ -217,7 +217,13 @@ def c06_run(scn) -> Result:
     tree = scn["tree"]
     os.makedirs(SCRATCH, exist_ok=True)
     try:
-        root = PW.load_tree(tree, scn["load"], SCRATCH, scn["listdir_seed"], random.Random(scn["style_seed"]))
+        try:
+            root = PW.load_tree(tree, scn["load"], SCRATCH, scn["listdir_seed"], random.Random(scn["style_seed"]))
+        except Exception as e:  # noqa: BLE001
+            res.violate("C06.value", -1, what="loading a well-formed tree raised", error=type(e).__name__, detail=str(e)[:200], load=scn["load"])
+            res.count("executions")
+            res.digest = digest(["load-raised", type(e).__name__])
+            return res
         leaves = all_leaves(tree)
         models = {tuple(p): PW.LeafModel(vals) for p, vals in leaves}
         prng = random.Random(scn["probe_seed"])
@@ -478,7 +484,13 @@ def run_c07(scn) -> Result:
     trees = {"T0": tree, **scn.get("trees", {})}
     try:
         style = lambda: random.Random(scn["style_seed"])  # noqa: E731
-        root = PW.load_tree(tree, scn["load"], SCRATCH, scn["listdir_seed"], style())
+        try:
+            root = PW.load_tree(tree, scn["load"], SCRATCH, scn["listdir_seed"], style())
+        except Exception as e:  # noqa: BLE001
+            res.violate("C07.agree", -1, what="loading a well-formed tree raised", error=type(e).__name__, detail=str(e)[:200], load=scn["load"])
+            res.count("executions")
+            res.digest = digest(["load-raised", type(e).__name__])
+            return res
         systems = {"S0": PW.make_system(root)}
 
         # C07.listing: same tree, two listings, identical reads through every route --------
